@@ -2,6 +2,7 @@ package sym
 
 import (
 	"fmt"
+	"sync"
 	"go/token"
 	"go/types"
 	"slices"
@@ -232,7 +233,18 @@ func (ex *Exec) visitInstr(fr *frame, instr ssa.Instruction) continuation {
 			fr.result = fr.get(instr.Results[0])
 		default:
 			var res []value
-			for _, r := range instr.Results {
+			late := lateLoads(instr)
+			for i, r := range instr.Results {
+				if late != nil && late[i] {
+					// gc evaluates the calls of a return statement before it reads plain variables
+					// ("return v, v.Unmarshal(b)"); go/ssa emits the load first. Follow gc.
+					p := fr.get(r.(*ssa.UnOp).X).(*value)
+					if p == nil {
+						ex.rtPanic("invalid memory address or nil pointer dereference")
+					}
+					res = append(res, copyVal(*p))
+					continue
+				}
 				res = append(res, fr.get(r))
 			}
 			fr.result = tuple(res)
@@ -754,4 +766,42 @@ func (ex *Exec) constValue(c *ssa.Const) value {
 		}
 	}
 	panic(engineErr("constValue: %s", c))
+}
+
+var lateLoadCache sync.Map // *ssa.Return -> []bool
+
+// lateLoads reports which results of a multi-value return are loads (of a local variable or a field
+// reached from one) that go/ssa placed before a call evaluated later in the same return statement.
+func lateLoads(ret *ssa.Return) []bool {
+	if v, ok := lateLoadCache.Load(ret); ok {
+		r, _ := v.([]bool)
+		return r
+	}
+	var out []bool
+	blk := ret.Block()
+	idx := map[ssa.Instruction]int{}
+	for i, in := range blk.Instrs {
+		idx[in] = i
+	}
+	for i, r := range ret.Results {
+		u, ok := r.(*ssa.UnOp)
+		if !ok || u.Op != token.MUL || u.Block() != blk {
+			continue
+		}
+		if refs := u.Referrers(); refs == nil || len(*refs) != 1 {
+			continue
+		}
+		// a call between the load and the return, whose result is also returned
+		for j := idx[u] + 1; j < len(blk.Instrs)-1; j++ {
+			if _, isCall := blk.Instrs[j].(*ssa.Call); isCall {
+				if out == nil {
+					out = make([]bool, len(ret.Results))
+				}
+				out[i] = true
+				break
+			}
+		}
+	}
+	lateLoadCache.Store(ret, out)
+	return out
 }
